@@ -4,6 +4,7 @@ go 1.25.0
 
 require (
 	github.com/gokrazy/rsync v0.0.0
+	github.com/google/shlex v0.0.0-20191202100458-e7afc7fbc510
 	golang.org/x/crypto v0.46.0
 )
 
@@ -11,7 +12,6 @@ require (
 	github.com/BurntSushi/toml v1.6.0 // indirect
 	github.com/coreos/go-systemd v0.0.0-20191104093116-d3cd4ed1dbcf // indirect
 	github.com/google/renameio/v2 v2.0.2 // indirect
-	github.com/google/shlex v0.0.0-20191202100458-e7afc7fbc510 // indirect
 	github.com/landlock-lsm/go-landlock v0.0.0-20250303204525-1544bccde3a3 // indirect
 	github.com/mmcloughlin/md4 v0.1.2 // indirect
 	golang.org/x/sync v0.19.0 // indirect
